@@ -325,7 +325,7 @@ impl<'a> CompilerState<'a> {
         let varname = px.as_str();
         let subscript = match p.next() {
             Some(pair) => {
-                let expr = self.parse_expr_ex(pair.into_inner())?;
+                let expr = self.parse_expr_ex(pair.into_inner(), self.literal_counter)?;
                 Box::new(expr.0)
             }
             None => Box::new(Expr::Nothing),
@@ -379,7 +379,7 @@ impl<'a> CompilerState<'a> {
     }
 
     fn parse_expr(&mut self, pairs: Pairs<'a, Rule>) -> Result<Expr, Error> {
-        let res = self.parse_expr_ex(pairs)?;
+        let res = self.parse_expr_ex(pairs, self.literal_counter)?;
 
         // Create collected literal variables in memory
         self.literal_counter += res.1.len();
@@ -416,11 +416,13 @@ impl<'a> CompilerState<'a> {
         Ok(res.0)
     }
 
+    // first_literal is the number of the first string literal met in this (sub)expression
     fn parse_expr_ex(
         &self,
         pairs: Pairs<'a, Rule>,
+        first_literal: usize,
     ) -> Result<(Expr, HashMap<String, String>), Error> {
-        let literal_counter = Rc::new(Mutex::new(self.literal_counter));
+        let literal_counter = Rc::new(Mutex::new(first_literal));
         let literal_strings = Rc::new(Mutex::new(HashMap::<String, String>::new()));
         if pairs.len() == 0 {
             let lit_strs = Rc::into_inner(literal_strings)
@@ -437,7 +439,9 @@ impl<'a> CompilerState<'a> {
                         self.parse_int(primary.into_inner().next().unwrap())?,
                     )),
                     Rule::expr => {
-                        let res = self.parse_expr_ex(primary.into_inner())?;
+                        // Literals of a subexpression are numbered after the ones already met
+                        let first = *literal_counter.lock().unwrap();
+                        let res = self.parse_expr_ex(primary.into_inner(), first)?;
                         let mut lit_strs = literal_strings.lock().unwrap();
                         for k in &res.1 {
                             lit_strs.insert(k.0.clone(), k.1.clone());
@@ -520,7 +524,8 @@ impl<'a> CompilerState<'a> {
                 Rule::pp => Ok(Expr::PlusPlus(Box::new(lhs?), true)),
                 Rule::call => {
                     let params = if let Some(x) = op.into_inner().next() {
-                        let res = self.parse_expr_ex(x.into_inner())?;
+                        let first = *literal_counter.lock().unwrap();
+                        let res = self.parse_expr_ex(x.into_inner(), first)?;
                         let mut lit_strs = literal_strings.lock().unwrap();
                         for k in &res.1 {
                             lit_strs.insert(k.0.clone(), k.1.clone());
@@ -598,7 +603,9 @@ impl<'a> CompilerState<'a> {
                         self.parse_int(primary.into_inner().next().unwrap())?,
                     )),
                     Rule::expr => {
-                        let res = self.parse_expr_ex(primary.into_inner())?;
+                        // Literals of a subexpression are numbered after the ones already met
+                        let first = *literal_counter.lock().unwrap();
+                        let res = self.parse_expr_ex(primary.into_inner(), first)?;
                         let mut lit_strs = literal_strings.lock().unwrap();
                         for k in &res.1 {
                             lit_strs.insert(k.0.clone(), k.1.clone());
@@ -680,7 +687,8 @@ impl<'a> CompilerState<'a> {
                 Rule::pp => Ok(Expr::PlusPlus(Box::new(lhs?), true)),
                 Rule::call => {
                     let params = if let Some(x) = op.into_inner().next() {
-                        let res = self.parse_expr_ex(x.into_inner())?;
+                        let first = *literal_counter.lock().unwrap();
+                        let res = self.parse_expr_ex(x.into_inner(), first)?;
                         let mut lit_strs = literal_strings.lock().unwrap();
                         for k in &res.1 {
                             lit_strs.insert(k.0.clone(), k.1.clone());
